@@ -373,13 +373,15 @@ def run_allocfault(binary, prop, seed, n):
 
     def one(i):
         return i, run_capture([binary, "allocfault", "--seed", str(seed), "--run", str(i), "--prop", prop])
-    stats = {"processes": n, "aborted_cleanly_on_alloc_failure": 0, "fault_not_reached": 0, "failure_reported_without_abort": 0}
+    stats = {"processes": n, "aborted_cleanly_on_alloc_failure": 0, "fault_not_reached": 0, "failure_reported_without_abort": 0, "failure_recovered_by_the_writer": 0}
     violations = []
     with ThreadPoolExecutor(max_workers=NCPU) as ex:
         for i, (rc, out, err) in ex.map(one, range(n)):
             if rc == 0:
                 if "fired=0" in out:
                     stats["fault_not_reached"] += 1
+                elif "recovered=1" in out:
+                    stats["failure_recovered_by_the_writer"] += 1
                 else:
                     stats["failure_reported_without_abort"] += 1
             elif rc in (134, -6) and "memory allocation of" in err:
